@@ -25,6 +25,8 @@ def ty_src(t):
             return ty_src(t[1]) + "?"
         if t[0] in ("rec", "enum"):
             return t[1]
+        if t[0] == "list":
+            return f"List[{ty_src(t[1])}]"
         if t[0] == "verdict":
             return f"Verdict[{ty_src(t[1])}, {ty_src(t[2])}]"
     if t == "unit":
@@ -97,6 +99,18 @@ def Match(e, arms, ty):
 
 def Try(e, ty):
     return Node("try", ty, e=e)                     # e? on Option
+
+
+def ListLit(ty, elems):
+    return Node("listlit", ty, elems=elems)          # ty = ("list", T)
+
+
+def For(var, vty, e, body):
+    return Node("for", "unit", var=var, vty=vty, e=e, body=body)
+
+
+def Method(recv, name, args, ty):
+    return Node("method", ty, recv=recv, name=name, args=args)
 
 
 def Paren(e):
@@ -187,6 +201,8 @@ def src(n, ind=1):
     if k == "ctor":
         if n.ty[0] == "opt":
             return f"Option.{n.variant}" + (f"({', '.join(src(a, ind) for a in n.args)})" if n.args else "")
+        if n.ty[0] == "verdict":
+            return f"Verdict.{n.variant}" + (f"({', '.join(src(a, ind) for a in n.args)})" if n.args else "")
         return f"{n.ty[1]}.{n.variant}" + (f"({', '.join(src(a, ind) for a in n.args)})" if n.args else "")
     if k == "match":
         s = f"match {src(n.e, ind)} {{\n"
@@ -200,6 +216,12 @@ def src(n, ind=1):
         return f"{src(n.e, ind)}?"
     if k == "rawsrc":
         return n.text
+    if k == "listlit":
+        return "[" + ", ".join(src(e, ind) for e in n.elems) + "]"
+    if k == "for":
+        return f"for {n.var} in {src(n.e, ind)} {block_src(n.body, ind)}"
+    if k == "method":
+        return f"{src(n.recv, ind)}.{n.name}({', '.join(src(a, ind) for a in n.args)})"
     raise ValueError(k)
 
 
@@ -240,6 +262,13 @@ def program_src(p):
 # ---------------------------------------------------------------------------- reference semantics
 class Undefined(Exception):
     """the language leaves this input undefined (integer division by zero / MIN / -1): excluded from C01, decided by C10"""
+
+
+class ListVal:
+    """the one shared type: a handle to a storage that every copy observes"""
+
+    def __init__(self):
+        self.elems = []
 
 
 class ReturnEx(Exception):
@@ -499,6 +528,35 @@ class Ref:
                         continue
                 return self.ev(body, env + [scope], depth)
             raise PathCut("non-exhaustive match (generator bug)")
+        if k == "listlit":
+            l = ListVal()
+            for e in n.elems:
+                l.elems.append(self.ev(e, env, depth))
+            return l
+        if k == "method":
+            recv = self.ev(n.recv, env, depth)
+            args = [self.ev(a, env, depth) for a in n.args]
+            if n.name == "push":
+                recv.elems.append(args[0])
+                return None
+            if n.name == "len":
+                return z3.BitVecVal(len(recv.elems), 64)
+            if n.name == "get":
+                for i in range(len(recv.elems)):
+                    if self.truth(args[0] == z3.BitVecVal(i, 64), f"get {i}"):
+                        return EnumVal(n.ty, 0, {0: [recv.elems[i]]})
+                return EnumVal(n.ty, 1, {1: []})
+            raise ValueError(n.name)
+        if k == "for":
+            l = self.ev(n.e, env, depth)
+            i = 0
+            # the loop asks the list for element i until it answers None, so pushes made by the body are seen
+            while i < len(l.elems):
+                if i >= self.k_loop:
+                    raise PathCut("reference loop bound")
+                self.block(n.body, env + [{n.var: l.elems[i]}], depth)
+                i += 1
+            return None
         if k == "try":
             v = self.ev(n.e, env, depth)
             if self.truth(self.tag_is(v, 0), "?"):
